@@ -13,6 +13,7 @@ import WnVerif.Lemmas.ForIn
 import WnVerif.Lemmas.DbAux
 import WnVerif.Gen.Schema
 import WnVerif.Gen.Misc
+import WnVerif.Lemmas.AddWords
 namespace WnVerif.Props.C01
 open WnVerif WnVerif.Db WnVerif.Doc
 
@@ -312,6 +313,538 @@ theorem C01_entry_forms (norm : String → String) (c : Ctx) (db db' : Db) (e : 
           rw [hent] at this
           cases this
           exact hrows
+
+/-! ### `_insert_forms` over all entries -/
+
+/-- `entryRow` reads only the `entries` table -/
+def entryRowE (E : List REntry) (id : String) (lex : Nat) : Option Nat :=
+  (E.find? (fun r => r.id == id && r.lex == lex)).map (·.rowid)
+
+theorem entryRow_eq (db : Db) (id : String) (lex : Nat) : entryRow db id lex = entryRowE db.entries id lex := rfl
+
+/-- the form rows written for one non-external entry, relative to a fixed `entries` table -/
+def ChunkOf (norm : String → String) (c : Ctx) (E : List REntry) (e : Entry) (ch : List RForm) : Prop :=
+  ∃ lem er lr rows, e.lemma = some lem ∧ entryRowE E e.id (c.lid e.id) = some er ∧ ch = lr :: rows ∧
+    lr.form = lem.form ∧ lr.script = lem.script ∧ lr.rank = 0 ∧ lr.entry = er ∧ lr.lex = c.lexid ∧ lr.id = none ∧
+    Forall2 (FormRowOf norm c er) (e.forms.zipIdx.filter (fun fi => !fi.1.external)) rows
+
+theorem entryFormsStep_entries (norm : String → String) (c : Ctx) (db db' : Db) (e : Entry)
+    (h : entryFormsStep norm c db e = .ok db') (hx : e.external = false) : db'.entries = db.entries := by
+  obtain ⟨_, _, _, _, _, _, hdb, _⟩ := C01_entry_forms norm c db db' e h hx
+  rw [hdb]
+
+/-- `_insert_forms`: the forms table grows by one chunk per entry, in entry order; the entries table
+is not touched -/
+theorem insertForms_chunks (norm : String → String) (c : Ctx) : ∀ (es : List Entry) (d d' : Db),
+    es.foldlM (entryFormsStep norm c) d = .ok d' → (∀ e ∈ es, e.external = false) →
+    d'.entries = d.entries ∧ ∃ chunks, d' = { d with forms := d.forms ++ chunks.flatten } ∧
+      Forall2 (ChunkOf norm c d.entries) es chunks := by
+  intro es
+  induction es with
+  | nil =>
+    intro d d' h _
+    simp only [List.foldlM_nil, pure, Except.pure, Except.ok.injEq] at h
+    subst h
+    exact ⟨rfl, [], by simp, Forall2.nil⟩
+  | cons e t ih =>
+    intro d d' h hx
+    simp only [List.foldlM_cons, bind, Except.bind] at h
+    cases h1 : entryFormsStep norm c d e with
+    | error x => rw [h1] at h; simp at h
+    | ok d1 =>
+      rw [h1] at h
+      have hxe := hx e List.mem_cons_self
+      obtain ⟨lem, er, lr, rows, a1, a2, a3, a4, a5, a6, a7, a8, a9, a10⟩ := C01_entry_forms norm c d d1 e h1 hxe
+      have hent1 : d1.entries = d.entries := by rw [a3]
+      obtain ⟨hent, chunks, hd', hch⟩ := ih d1 d' h (fun x hx' => hx x (List.mem_cons_of_mem _ hx'))
+      refine ⟨hent.trans hent1, (lr :: rows) :: chunks, ?_, ?_⟩
+      · rw [hd', a3]; simp
+      · refine Forall2.cons ⟨lem, er, lr, rows, a1, ?_, rfl, a4, a5, a6, a7, a8, a9, a10⟩ ?_
+        · rw [← entryRow_eq]; exact a2
+        · rw [hent1] at hch; exact hch
+
+/-! ### the tables that `words()` reads, after one whole `addLexicon` -/
+
+theorem insertLexicon_frame (db db' : Db) (l : Lexicon) (lexid extid : Nat)
+    (h : insertLexicon db l = .ok (db', lexid, extid)) :
+    db'.entries = db.entries ∧ db'.forms = db.forms ∧ lexid = nextId (db.lexicons.map (·.rowid)) ∧
+    (l.ext = none → extid = lexid) := by
+  unfold insertLexicon at h
+  simp only [bind, Except.bind, pure, Except.pure] at h
+  split at h
+  · simp [throw, throwThe, MonadExcept.throw] at h
+  · split at h
+    · rename_i b hb
+      split at h
+      · simp at h
+      · simp only [Except.ok.injEq, Prod.mk.injEq] at h
+        obtain ⟨h1, h2, h3⟩ := h
+        subst h1 h2
+        exact ⟨rfl, rfl, rfl, fun hn => by rw [hn] at hb; cases hb⟩
+    · simp only [Except.ok.injEq, Prod.mk.injEq] at h
+      obtain ⟨h1, h2, h3⟩ := h
+      subst h1 h2
+      exact ⟨rfl, rfl, rfl, fun _ => h3.symm⟩
+
+/-- after `addLexicon` of a plain (non-extension) lexicon without external entries: the `entries`
+table is the old one followed by one row per entry, the `forms` table the old one followed by one
+chunk per entry — every later insert step leaves both alone -/
+theorem addLexicon_words_tables (norm : String → String) (dr : Nat) (db db' : Db) (l : Lexicon)
+    (h : addLexicon norm dr db l = .ok db') (hext : l.ext = none) (hx : ∀ e ∈ l.entries, e.external = false) :
+    ∃ (c : Ctx) (rows : List REntry) (chunks : List (List RForm)),
+      c.lexid = nextId (db.lexicons.map (·.rowid)) ∧ c.extid = c.lexid ∧
+      db'.entries = db.entries ++ rows ∧ EntryRows c db.entries l.entries rows ∧
+      db'.forms = db.forms ++ chunks.flatten ∧ Forall2 (ChunkOf norm c (db.entries ++ rows)) l.entries chunks := by
+  unfold addLexicon at h
+  simp only [bind, Except.bind] at h
+  cases h0 : collectFrames l with
+  | error x => rw [h0] at h; simp at h
+  | ok sbs =>
+    rw [h0] at h
+    simp only at h
+    cases h1 : insertLexicon (updateLookups db l) l with
+    | error x => rw [h1] at h; simp at h
+    | ok t =>
+      obtain ⟨d1, lexid, extid⟩ := t
+      rw [h1] at h
+      simp only at h
+      obtain ⟨f1, f2, f3, f4⟩ := insertLexicon_frame _ _ _ _ _ h1
+      have hext' := f4 hext
+      subst hext'
+      generalize hc : ({ lexid := extid, extid := extid, extIds := externalIds l } : Ctx) = c at h
+      cases h2 : insertSynsets d1 l c with
+      | error x => rw [h2] at h; simp at h
+      | ok d2 =>
+        rw [h2] at h
+        simp only at h
+        obtain ⟨g1, g2⟩ := keepsF_insertSynsets l c d1 d2 h2
+        cases h3 : insertEntries d2 l c with
+        | error x => rw [h3] at h; simp at h
+        | ok d3 =>
+          rw [h3] at h
+          simp only at h
+          cases h4 : insertForms d3 norm l c with
+          | error x => rw [h4] at h; simp at h
+          | ok d4 =>
+            rw [h4] at h
+            simp only at h
+            cases h5 : insertPronsTags d4 l c with
+            | error x => rw [h5] at h; simp at h
+            | ok d5 =>
+              rw [h5] at h
+              simp only at h
+              cases h6 : insertSenses d5 l c dr with
+              | error x => rw [h6] at h; simp at h
+              | ok d6 =>
+                rw [h6] at h
+                simp only at h
+                cases h7 : insertSbs d6 sbs c with
+                | error x => rw [h7] at h; simp at h
+                | ok d7 =>
+                  rw [h7] at h
+                  simp only at h
+                  cases h8 : insertRelations d7 l c with
+                  | error x => rw [h8] at h; simp at h
+                  | ok d8 =>
+                    rw [h8] at h
+                    simp only at h
+                    have k5 := keepsF_insertPronsTags l c d4 d5 h5
+                    have k6 := keepsF_insertSenses l c dr d5 d6 h6
+                    have k7 := keepsF_insertSbs sbs c d6 d7 h7
+                    have k8 := keepsF_insertRelations l c d7 d8 h8
+                    have k9 := keepsF_insertDefsExamples l c d8 db' h
+                    have hloc : localEntries l = l.entries := by
+                      unfold localEntries
+                      rw [List.filter_eq_self]
+                      intro e he; simp [hx e he]
+                    unfold insertEntries at h3
+                    rw [hloc] at h3
+                    obtain ⟨rows, hd3, hrows⟩ := insertEntries_rows c l.entries d2 d3 h3
+                    have hd2e : d2.entries = db.entries := by rw [g1, f1]; rfl
+                    have hd2f : d2.forms = db.forms := by rw [g2, f2]; rfl
+                    unfold insertForms at h4
+                    obtain ⟨e4, chunks, hd4, hch⟩ := insertForms_chunks norm c l.entries d3 d4 h4 hx
+                    have hd3e : d3.entries = db.entries ++ rows := by rw [hd3]; simp [hd2e]
+                    have hd3f : d3.forms = db.forms := by rw [hd3]; exact hd2f
+                    refine ⟨c, rows, chunks, ?_, ?_, ?_, ?_, ?_, ?_⟩
+                    · rw [← hc]; exact f3.trans (by rfl)
+                    · rw [← hc]
+                    · rw [k9.1, k8.1, k7.1, k6.1, k5.1, e4, hd3e]
+                    · rw [← hd2e]; exact hrows
+                    · rw [k9.2, k8.2, k7.2, k6.2, k5.2, hd4]; simp [hd3f]
+                    · rw [← hd3e]; exact hch
+
+/-! ### evaluating `find_entries` on a store whose last lexicon was just written -/
+
+/-- the word that `find_entries` builds from an entry row and its (rank-ordered) form rows -/
+def wordOf (r : REntry) (ch : List RForm) : WordData :=
+  { id := r.id, pos := r.pos, forms := ch.map (fun f => ⟨f.form, f.id, f.script, f.rowid⟩), lex := r.lex, rowid := r.rowid }
+
+theorem filter_flatten_pick : ∀ (rows : List REntry) (chunks : List (List RForm)),
+    Forall2 (fun r ch => ∀ f ∈ ch, f.entry = r.rowid) rows chunks → rows.Pairwise (fun a b => a.rowid ≠ b.rowid) →
+    ∀ p ∈ rows.zip chunks, chunks.flatten.filter (fun f => f.entry == p.1.rowid) = p.2 := by
+  intro rows chunks h
+  induction h with
+  | nil => intro _ p hp; simp at hp
+  | @cons r0 ch0 rows chunks h0 hrest ih =>
+    intro hd p hp
+    rw [List.pairwise_cons] at hd
+    simp only [List.zip_cons_cons, List.mem_cons] at hp
+    simp only [List.flatten_cons, List.filter_append]
+    rcases hp with rfl | hp
+    · have e1 : ch0.filter (fun f => f.entry == r0.rowid) = ch0 := by
+        rw [List.filter_eq_self]; intro f hf; simp [h0 f hf]
+      have e2 : chunks.flatten.filter (fun f => f.entry == r0.rowid) = [] := by
+        rw [List.filter_eq_nil_iff]
+        intro f hf
+        simp only [List.mem_flatten] at hf
+        obtain ⟨ch, hch, hfch⟩ := hf
+        -- ch belongs to some later row
+        have : ∃ r ∈ rows, ∀ f ∈ ch, f.entry = r.rowid := by
+          clear ih hd e1
+          induction hrest with
+          | nil => simp at hch
+          | cons hh _ ih2 =>
+            rcases List.mem_cons.mp hch with rfl | hch
+            · exact ⟨_, List.mem_cons_self, hh⟩
+            · obtain ⟨r, hr, hrf⟩ := ih2 hch
+              exact ⟨r, List.mem_cons_of_mem _ hr, hrf⟩
+        obtain ⟨r, hr, hrf⟩ := this
+        have := hd.1 r hr
+        simp [hrf f hfch]
+        exact fun e => this e.symm
+      simp only
+      rw [e1, e2, List.append_nil]
+    · have hp1 : p.1 ∈ rows := (List.of_mem_zip hp).1
+      have e1 : ch0.filter (fun f => f.entry == p.1.rowid) = [] := by
+        rw [List.filter_eq_nil_iff]
+        intro f hf
+        simp [h0 f hf]
+        exact hd.1 p.1 hp1
+      rw [e1, List.nil_append]
+      exact ih hd.2 p hp
+
+theorem filterMap_zip {α β γ} (G : α → Option γ) (W : α × β → γ) : ∀ (l : List α) (l' : List β), l.length = l'.length →
+    (∀ p ∈ l.zip l', G p.1 = some (W p)) → l.filterMap G = (l.zip l').map W := by
+  intro l
+  induction l with
+  | nil => intro l' _ _; simp
+  | cons a t ih =>
+    intro l' hlen h
+    cases l' with
+    | nil => simp at hlen
+    | cons b t' =>
+      simp only [List.zip_cons_cons, List.map_cons]
+      rw [List.filterMap_cons, h (a, b) (by simp)]
+      simp only
+      congr 1
+      exact ih t' (by simpa using hlen) (fun p hp => h p (by simp [hp]))
+
+theorem Forall2.length_eq {α β} {R : α → β → Prop} {l : List α} {l' : List β} (h : Forall2 R l l') : l.length = l'.length := by
+  induction h with
+  | nil => rfl
+  | cons _ _ ih => simp [ih]
+
+/-- `find_entries` for the lexicon `lexid`, on a store whose entries of that lexicon are `rows` (in
+rowid order) and whose forms for them are `chunks` (each in rank order): exactly one word per row,
+in order, with exactly that row's forms in order -/
+theorem findEntries_of_tables (db' : Db) (Eold rows : List REntry) (Fold : List RForm) (chunks : List (List RForm)) (lexid : Nat)
+    (hE : db'.entries = Eold ++ rows) (hF : db'.forms = Fold ++ chunks.flatten)
+    (hold : ∀ o ∈ Eold, o.lex ≠ lexid) (hrl : ∀ r ∈ rows, r.lex = lexid)
+    (hincr : rows.Pairwise (fun a b => a.rowid < b.rowid))
+    (hFold : ∀ f ∈ Fold, ∀ r ∈ rows, f.entry ≠ r.rowid)
+    (hch : Forall2 (fun r ch => (∀ f ∈ ch, f.entry = r.rowid) ∧ ch ≠ [] ∧ ch.Pairwise (fun a b => a.rank ≤ b.rank)) rows chunks) :
+    findEntries db' none [] none [lexid] false true = (rows.zip chunks).map (fun p => wordOf p.1 p.2) := by
+  unfold findEntries
+  have hfilter : db'.entries.filter (fun e =>
+      (match (none : Option String) with | some i => if i == "" then true else e.id == i | none => true) &&
+      (([] : List String).isEmpty || formMatch db' [] false true e.rowid) &&
+      (match (none : Option String) with | some p => if p == "" then true else e.pos == p | none => true) &&
+      inLexOrAll [lexid] e.lex) = rows := by
+    rw [hE, List.filter_append]
+    have e1 : Eold.filter (fun e => (match (none : Option String) with | some i => if i == "" then true else e.id == i | none => true) &&
+        (([] : List String).isEmpty || formMatch db' [] false true e.rowid) &&
+        (match (none : Option String) with | some p => if p == "" then true else e.pos == p | none => true) &&
+        inLexOrAll [lexid] e.lex) = [] := by
+      rw [List.filter_eq_nil_iff]
+      intro o ho
+      simp [inLexOrAll, hold o ho]
+    have e2 : rows.filter (fun e => (match (none : Option String) with | some i => if i == "" then true else e.id == i | none => true) &&
+        (([] : List String).isEmpty || formMatch db' [] false true e.rowid) &&
+        (match (none : Option String) with | some p => if p == "" then true else e.pos == p | none => true) &&
+        inLexOrAll [lexid] e.lex) = rows := by
+      rw [List.filter_eq_self]
+      intro r hr
+      simp [inLexOrAll, hrl r hr]
+    rw [e1, e2, List.nil_append]
+  rw [hfilter]
+  simp only
+  rw [sortBy_of_sorted (fun x : REntry => x.rowid) rows (hincr.imp (fun h => Nat.le_of_lt h))]
+  have hdist : rows.Pairwise (fun a b => a.rowid ≠ b.rowid) := hincr.imp (fun h => Nat.ne_of_lt h)
+  have hpick := filter_flatten_pick rows chunks (Forall2.imp (fun _ _ h => h.1) hch) hdist
+  apply filterMap_zip _ (fun p => wordOf p.1 p.2) rows chunks hch.length_eq
+  intro p hp
+  have hp1 : p.1 ∈ rows := (List.of_mem_zip hp).1
+  have hforms : db'.forms.filter (fun f => f.entry == p.1.rowid) = p.2 := by
+    rw [hF, List.filter_append, hpick p hp]
+    have : Fold.filter (fun f => f.entry == p.1.rowid) = [] := by
+      rw [List.filter_eq_nil_iff]
+      intro f hf
+      simp [hFold f hf p.1 hp1]
+    rw [this, List.nil_append]
+  have hprop : p.2 ≠ [] ∧ p.2.Pairwise (fun a b => a.rank ≤ b.rank) := by
+    have : ∀ (rows : List REntry) (chunks : List (List RForm)),
+        Forall2 (fun r ch => (∀ f ∈ ch, f.entry = r.rowid) ∧ ch ≠ [] ∧ ch.Pairwise (fun a b => a.rank ≤ b.rank)) rows chunks →
+        ∀ p ∈ rows.zip chunks, p.2 ≠ [] ∧ p.2.Pairwise (fun a b => a.rank ≤ b.rank) := by
+      intro rows chunks h
+      induction h with
+      | nil => intro p hp; simp at hp
+      | cons hh _ ih =>
+        intro p hp
+        simp only [List.zip_cons_cons, List.mem_cons] at hp
+        rcases hp with rfl | hp
+        · exact hh.2
+        · exact ih p hp
+    exact this rows chunks hch p hp
+  simp only [hforms, sortBy_of_sorted (fun x : RForm => x.rank) p.2 hprop.2]
+  have : p.2.isEmpty = false := by
+    cases hq : p.2 with
+    | nil => exact absurd hq hprop.1
+    | cons _ _ => rfl
+  simp [this, wordOf]
+
+/-! ### end to end: `words()` after `add` = the document's entries -/
+
+theorem Forall2.get {α β} {R : α → β → Prop} : ∀ {l : List α} {l' : List β}, Forall2 R l l' →
+    ∀ i (h1 : i < l.length) (h2 : i < l'.length), R l[i] l'[i] := by
+  intro l l' h
+  induction h with
+  | nil => intro i h1; simp at h1
+  | cons hh _ ih =>
+    intro i h1 h2
+    cases i with
+    | zero => exact hh
+    | succ j => simp only [List.getElem_cons_succ]; exact ih j (by simpa using h1) (by simpa using h2)
+
+theorem Forall2.of_index {α β} {R : α → β → Prop} : ∀ (l : List α) (l' : List β), l.length = l'.length →
+    (∀ i (h1 : i < l.length) (h2 : i < l'.length), R l[i] l'[i]) → Forall2 R l l' := by
+  intro l
+  induction l with
+  | nil => intro l' hl _; cases l' with | nil => exact Forall2.nil | cons _ _ => simp at hl
+  | cons a t ih =>
+    intro l' hl h
+    cases l' with
+    | nil => simp at hl
+    | cons b t' =>
+      refine Forall2.cons (h 0 (by simp) (by simp)) (ih t' (by simpa using hl) ?_)
+      intro i h1 h2
+      have := h (i + 1) (by simpa using h1) (by simpa using h2)
+      simpa using this
+
+theorem Forall2.map_eq {α β γ} {R : α → β → Prop} (p : β → γ) (q : α → γ) (hpq : ∀ a b, R a b → p b = q a) :
+    ∀ {l : List α} {l' : List β}, Forall2 R l l' → l'.map p = l.map q := by
+  intro l l' h
+  induction h with
+  | nil => rfl
+  | cons hh _ ih => simp [hpq _ _ hh, ih]
+
+theorem Forall2.pairwise {α β} {R : α → β → Prop} {S : α → α → Prop} {T : β → β → Prop}
+    (hST : ∀ a b a' b', R a b → R a' b' → S a a' → T b b') :
+    ∀ {l : List α} {l' : List β}, Forall2 R l l' → l.Pairwise S → l'.Pairwise T := by
+  intro l l' h
+  induction h with
+  | nil => intro _; exact List.Pairwise.nil
+  | @cons a b l l' hh hrest ih =>
+    intro hp
+    rw [List.pairwise_cons] at hp ⊢
+    refine ⟨?_, ih hp.2⟩
+    intro b' hb'
+    -- b' corresponds to some a' in l
+    have : ∃ a' ∈ l, R a' b' := by
+      clear ih hp
+      induction hrest with
+      | nil => simp at hb'
+      | cons h1 _ ih2 =>
+        rcases List.mem_cons.mp hb' with rfl | hb'
+        · exact ⟨_, List.mem_cons_self, h1⟩
+        · obtain ⟨x, hx, hr⟩ := ih2 hb'
+          exact ⟨x, List.mem_cons_of_mem _ hx, hr⟩
+    obtain ⟨a', ha', hr'⟩ := this
+    exact hST a b a' b' hh hr' (hp.1 a' ha')
+
+theorem zipIdx_filter_fst {α} (p : α → Bool) : ∀ (l : List α) (n : Nat),
+    ((l.zipIdx n).filter (fun fi => p fi.1)).map (·.1) = l.filter p := by
+  intro l
+  induction l with
+  | nil => intro n; rfl
+  | cons a t ih =>
+    intro n
+    simp only [List.zipIdx_cons, List.filter_cons]
+    cases hp : p a <;> simp [ih (n + 1)]
+
+theorem zipIdx_pairwise {α} : ∀ (l : List α) (n : Nat), (l.zipIdx n).Pairwise (fun a b => a.2 < b.2) ∧ ∀ x ∈ l.zipIdx n, n ≤ x.2 := by
+  intro l
+  induction l with
+  | nil => intro n; simp
+  | cons a t ih =>
+    intro n
+    simp only [List.zipIdx_cons, List.pairwise_cons, List.mem_cons]
+    obtain ⟨h1, h2⟩ := ih (n + 1)
+    refine ⟨⟨fun x hx => ?_, h1⟩, ?_⟩
+    · have := h2 x hx; show n < x.2; omega
+    · rintro x (rfl | hx)
+      · exact Nat.le_refl _
+      · have := h2 x hx; omega
+
+theorem find_of_distinct (rows : List REntry) (lexid : Nat) (hd : rows.Pairwise (fun a b => a.id ≠ b.id))
+    (hl : ∀ r ∈ rows, r.lex = lexid) : ∀ i (h : i < rows.length),
+    rows.find? (fun r => r.id == (rows[i]).id && r.lex == lexid) = some rows[i] := by
+  induction rows with
+  | nil => intro i h; simp at h
+  | cons a t ih =>
+    intro i h
+    rw [List.pairwise_cons] at hd
+    cases i with
+    | zero => simp [hl a List.mem_cons_self]
+    | succ j =>
+      simp only [List.getElem_cons_succ, List.find?_cons]
+      have hj : j < t.length := by simpa using h
+      have hne : a.id ≠ (t[j]).id := hd.1 _ (List.getElem_mem hj)
+      have : (a.id == (t[j]).id && a.lex == lexid) = false := by simp [hne]
+      rw [this]
+      exact ih hd.2 (fun r hr => hl r (List.mem_cons_of_mem _ hr)) j hj
+
+/-- the content of one entry of the document as `words()` is specified to report it: id, part of
+speech of the lemma, then the lemma and the further (non-external) forms in document order, each
+with its written form, id and script -/
+def docWord (e : Entry) : String × String × List (String × Option String × Option String) :=
+  (e.id, (e.lemma.map (·.pos)).getD "",
+   (match e.lemma with | some lem => [(lem.form, none, lem.script)] | none => []) ++
+   (e.forms.filter (fun f => !f.external)).map (fun f => (f.form, f.id, f.script)))
+
+def obsWord (w : WordData) : String × String × List (String × Option String × Option String) :=
+  (w.id, w.pos, w.forms.map (fun f => (f.form, f.id, f.script)))
+
+/-- **C01, words slice, end to end.**  Let `l` be a plain lexicon (no `Extends`, no external
+entries) and `db` any store in which entry rows point at existing lexicon rows and form rows at
+existing entry rows.  If `add` of `l` succeeds, then `words()` restricted to the new lexicon reports
+exactly the document's entries, in document order, each with its id, the part of speech of its
+lemma, and its lemma followed by its further forms in document order with written form, id and
+script unaltered — nothing else, nothing missing; for documents of any size. -/
+theorem C01_words_end_to_end (norm : String → String) (dr : Nat) (db db' : Db) (l : Lexicon)
+    (h : addLexicon norm dr db l = .ok db') (hext : l.ext = none) (hx : ∀ e ∈ l.entries, e.external = false)
+    (hfkE : ∀ o ∈ db.entries, o.lex ∈ db.lexicons.map (·.rowid))
+    (hfkF : ∀ f ∈ db.forms, f.entry ∈ db.entries.map (·.rowid)) :
+    (findEntries db' none [] none [nextId (db.lexicons.map (·.rowid))] false true).map obsWord = l.entries.map docWord := by
+  obtain ⟨c, rows, chunks, hc1, hc2, hE, hR, hF, hC⟩ := addLexicon_words_tables norm dr db db' l h hext hx
+  rw [← hc1]
+  have hlid : ∀ id, c.lid id = c.lexid := by
+    intro id; unfold Ctx.lid; simp [hc2]
+  have hrl : ∀ r ∈ rows, r.lex = c.lexid := by
+    intro r hr
+    obtain ⟨i, hi, rfl⟩ := List.mem_iff_getElem.mp hr
+    exact (hR.spec i (by rw [← hR.len]; exact hi) hi).2.1
+  have hlenC : l.entries.length = chunks.length := hC.length_eq
+  -- the entry row that `_insert_forms` looked up for the i-th entry is the i-th new row
+  have hER : ∀ i (h1 : i < l.entries.length) (h2 : i < rows.length),
+      entryRowE (db.entries ++ rows) (l.entries[i]).id (c.lid (l.entries[i]).id) = some (rows[i]).rowid := by
+    intro i h1 h2
+    rw [hlid]
+    unfold entryRowE
+    rw [List.find?_append]
+    have hid := (hR.spec i h1 h2).1
+    have hold : db.entries.find? (fun r => r.id == (l.entries[i]).id && r.lex == c.lexid) = none := by
+      rw [List.find?_eq_none]
+      intro o ho
+      have := hR.fresh (rows[i]) (List.getElem_mem h2) o ho
+      rw [hid] at this
+      simpa using this
+    rw [hold, ← hid, Option.none_or, find_of_distinct rows c.lexid hR.distinct hrl i h2]
+    rfl
+  have hch : Forall2 (fun r ch => (∀ f ∈ ch, f.entry = r.rowid) ∧ ch ≠ [] ∧ ch.Pairwise (fun a b => a.rank ≤ b.rank)) rows chunks := by
+    apply Forall2.of_index rows chunks (by rw [hR.len, hlenC])
+    intro i h1 h2
+    have h0 : i < l.entries.length := by rw [← hR.len]; exact h1
+    obtain ⟨lem, er, lr, rws, a1, a2, a3, a4, a5, a6, a7, a8, a9, a10⟩ := hC.get i h0 h2
+    have her : er = (rows[i]).rowid := by
+      have := hER i h0 h1
+      rw [a2] at this
+      exact Option.some.inj this
+    rw [a3]
+    refine ⟨?_, by simp, ?_⟩
+    · intro f hf
+      rcases List.mem_cons.mp hf with rfl | hf
+      · rw [a7, her]
+      · obtain ⟨fi, _, hfi⟩ : ∃ fi ∈ (l.entries[i]).forms.zipIdx.filter (fun fi => !fi.1.external), FormRowOf norm c er fi f := by
+          have : ∀ {L : List (Form × Nat)} {R : List RForm}, Forall2 (FormRowOf norm c er) L R → ∀ f ∈ R, ∃ fi ∈ L, FormRowOf norm c er fi f := by
+            intro L R hh
+            induction hh with
+            | nil => intro f hf; simp at hf
+            | cons h1 _ ih =>
+              intro f hf
+              rcases List.mem_cons.mp hf with rfl | hf
+              · exact ⟨_, List.mem_cons_self, h1⟩
+              · obtain ⟨x, hx, hr⟩ := ih f hf
+                exact ⟨x, List.mem_cons_of_mem _ hx, hr⟩
+          exact this a10 f hf
+        rw [hfi.2.1, her]
+    · rw [List.pairwise_cons]
+      constructor
+      · intro f _; rw [a6]; exact Nat.zero_le _
+      · have hp : ((l.entries[i]).forms.zipIdx.filter (fun fi => !fi.1.external)).Pairwise (fun a b => a.2 < b.2) :=
+          ((zipIdx_pairwise _ 0).1).sublist List.filter_sublist
+        exact Forall2.pairwise (S := fun a b => a.2 < b.2) (T := fun a b => a.rank ≤ b.rank)
+          (fun a b a' b' hab hab' hlt => by rw [hab.2.2.2.2.2.1, hab'.2.2.2.2.2.1]; omega) a10 hp
+  have hfind := findEntries_of_tables db' db.entries rows db.forms chunks c.lexid hE hF
+    (by
+      intro o ho e
+      have := hfkE o ho
+      rw [e, hc1] at this
+      exact nextId_fresh _ this)
+    hrl hR.incr
+    (by
+      intro f hf r hr e
+      obtain ⟨o, ho, hor⟩ := List.mem_map.mp (hfkF f hf)
+      have := hR.above r hr o ho
+      omega)
+    hch
+  rw [hfind, List.map_map]
+  apply List.ext_getElem
+  · simp [hR.len, hlenC]
+  · intro i h1 h2
+    simp only [List.getElem_map, List.getElem_zip, Function.comp]
+    have hi0 : i < l.entries.length := by simpa using h2
+    have hi1 : i < rows.length := by rw [hR.len]; exact hi0
+    have hi2 : i < chunks.length := by rw [← hlenC]; exact hi0
+    obtain ⟨s1, s2, s3, lem0, s4, s5⟩ := hR.spec i hi0 hi1
+    obtain ⟨lem, er, lr, rws, a1, a2, a3, a4, a5, a6, a7, a8, a9, a10⟩ := hC.get i hi0 hi2
+    rw [s4] at a1
+    cases a1
+    unfold obsWord wordOf docWord
+    simp only [s1, s5, s4, Option.map_some, Option.getD_some, a3, List.map_cons, List.map_map, a4, a5, a9, List.cons_append, List.nil_append]
+    congr 2
+    have := Forall2.map_eq (R := FormRowOf norm c er) (fun f : RForm => (f.form, f.id, f.script))
+      (fun fi : Form × Nat => (fi.1.form, fi.1.id, fi.1.script)) (fun a b hab => by rw [hab.2.2.2.1, hab.2.2.1, hab.2.2.2.2.1]) a10
+    rw [show (List.map ((fun f : FormData => (f.form, f.id, f.script)) ∘ fun f : RForm => (⟨f.form, f.id, f.script, f.rowid⟩ : FormData)) rws) =
+      rws.map (fun f : RForm => (f.form, f.id, f.script)) from rfl, this]
+    rw [← zipIdx_filter_fst (fun f : Form => !f.external) (l.entries[i]).forms 0, List.map_map]
+    rfl
+
+/-! non-vacuity: a concrete lexicon for which `add` succeeds on the empty store, so that the
+hypotheses of `C01_words_end_to_end` are jointly satisfiable (the kernel runs the whole `addLexicon`) -/
+
+def demoLex : Lexicon :=
+  { id := "a", version := "1", label := "A", language := "en", email := "e", license := "l",
+    entries := [{ id := "e1", lemma := some { form := "cat", pos := "n", script := some "Latn" },
+                  forms := [{ id := some "f1", form := "cats" }, { form := "kitty" }],
+                  senses := [{ id := "s1", synset := "y1" }] },
+                { id := "e2", lemma := some { form := "dog", pos := "n" } }],
+    synsets := [{ id := "y1", ili := "i1", pos := some "n" }] }
+
+def isOk {α} : R α → Bool | .ok _ => true | .error _ => false
+
+example : isOk (addLexicon (fun s => s) 127 Db.empty demoLex) = true ∧ demoLex.ext = none ∧
+    (∀ e ∈ demoLex.entries, e.external = false) := by decide +kernel
 
 /-! ### `_insert_senses` -/
 
